@@ -21,7 +21,8 @@ RULE = ('file names = product of segment kinds {file names in root, subdir, ., .
         'each call audited for open() and compared with the tree on disk, and repeated as HEAD (a 200 must describe a file inside the root: every file has its own size); histories over several roots (every file of one root served first, then another root asked for it by absolute path); also driven through Ombott.__call__ with the name taken '
         'from a path wildcard. Non-trivial = the name contains a dot-dot, an absolute prefix, a backslash or a sibling name; '
         'distinct = distinct (root spelling, filename).')
-REQUIRED = ['head_requests', 'probes_after_serving_another_root', 'served_200', 'denied_403', 'missing_404', 'opens_observed', 'names_with_dotdot', 'names_with_backslash',
+PYOPT = {'quick': 1, 'thorough': 1}     # one unit of every kind is also served by an interpreter started with -O (assert statements compiled out)
+REQUIRED = ['units_run_under_python_-O', 'head_requests', 'probes_after_serving_another_root', 'served_200', 'denied_403', 'missing_404', 'opens_observed', 'names_with_dotdot', 'names_with_backslash',
             'names_absolute', 'names_sibling_prefix', 'served_content_compared', 'via_wsgi']
 EXHAUSTIVE = {'quick': False, 'thorough': False,
               'quick_note': 'the product units enumerate the name product for <=2 segments completely', 'thorough_note': 'the product units enumerate the name product for <=3 segments completely'}
